@@ -158,6 +158,8 @@ def build_for(case):
     spec = case['scenario']
 
     def build(arena):
+        # (some scenarios run on a clock that starts below zero and crosses it)
+        arena.start = [-1.5, -1, -0.5][case['index'] % 3] if case['index'] % 11 == 7 else 0
         checker = Checker(arena, spec)
 
         # (privileged failure types only where no activity fails by a cancelled task as well)
